@@ -30,7 +30,15 @@ const LEGACY_BEACONS: [u64; 2] = [44, 29];
 const DEEP_CHUNKS: usize = 16;
 
 fn setup() -> Setup {
-    let chain = Chain::base();
+    setup_on(Chain::base())
+}
+
+/// the same worlds over the chain with a single-transaction block range
+fn setup_sparse() -> Setup {
+    setup_on(Chain::sparse())
+}
+
+fn setup_on(chain: Chain) -> Setup {
     let forged = chain.forged();
     let mut worlds = vec![];
     for b in V2_BEACONS {
@@ -172,11 +180,19 @@ pub fn run(ctx: &Ctx) -> ! {
         }
     };
 
+    let sparse = match catch(setup_sparse) {
+        Ok(s) => s,
+        Err(e) => {
+            rep.machinery_error(format!("honest world (sparse chain) could not be built: {e} at {}", mc_core::last_panic_location()));
+            rep.finish(ctx)
+        }
+    };
+
     // ---------------- replay
     if let Some(path) = &ctx.replay {
         let v = mc_core::load_replay(path);
         match v["part"].as_str().unwrap_or("") {
-            "sets" => crate::c11_sets::replay(&setup, &v, &mut rep),
+            "sets" => crate::c11_sets::replay(if v["sparse_chain"].as_bool().unwrap_or(false) { &sparse } else { &setup }, &v, &mut rep),
             "csd" => stake::replay_csd(&v, &mut rep),
             "msd" => {
                 let foreign = stake::foreign_fixture();
@@ -218,7 +234,20 @@ pub fn run(ctx: &Ctx) -> ! {
                     && (q == vec![pool[1].clone()] || q == vec![pool[0].clone(), pool[2].clone(), pool[7].clone()]);
                 let chunks = if depth >= 2 { DEEP_CHUNKS } else { 1 };
                 for chunk in 0..chunks {
-                    jobs.push(Job { fmt, beacon, query: q.clone(), depth, sample, chunk, chunks });
+                    jobs.push(Job { fmt, beacon, query: q.clone(), depth, sample, chunk, chunks, sparse: false });
+                }
+            }
+        }
+        // the chain with a single-transaction block range [15,30[: its lone item, one item of each
+        // neighbouring range, an absent one
+        let sparse_picks: Vec<Option<(u64, usize)>> = vec![Some((20, 0)), Some((0, 0)), Some((30, 1)), None];
+        let spool = if fmt == Fmt::BlockV2 { block_pool(&sparse.chain, &sparse_picks) } else { tx_pool(&sparse.chain, &sparse_picks) };
+        for beacon in beacons {
+            for q in subsets_up_to(&spool, 3) {
+                let depth = if thorough && q.len() <= 2 { 2 } else { 1 };
+                let chunks = if depth >= 2 { DEEP_CHUNKS } else { 1 };
+                for chunk in 0..chunks {
+                    jobs.push(Job { fmt, beacon, query: q.clone(), depth, sample: false, chunk, chunks, sparse: true });
                 }
             }
         }
@@ -227,13 +256,13 @@ pub fn run(ctx: &Ctx) -> ! {
     jobs.sort_by_key(|j| std::cmp::Reverse((j.depth, j.query.len())));
     let n_jobs = jobs.iter().filter(|j| j.chunk == 0).count();
     let n_deep = jobs.iter().filter(|j| j.depth >= 2 && j.chunk == 0).count();
-    let results = par_map(&jobs, ctx.threads(), |_, j| run_job(&setup, j));
+    let results = par_map(&jobs, ctx.threads(), |_, j| run_job(if j.sparse { &sparse } else { &setup }, j));
     let mut bases = 0;
     let mut examples: BTreeMap<String, serde_json::Value> = BTreeMap::new();
     let sets_before = rep.evaluations;
     // merge smallest queries first so that the kept counterexample of each key is a small one
     let mut order: Vec<usize> = (0..results.len()).collect();
-    order.sort_by_key(|i| (jobs[*i].query.len(), jobs[*i].chunk, *i));
+    order.sort_by_key(|i| (jobs[*i].sparse, jobs[*i].query.len(), jobs[*i].chunk, *i));
     let mut results: Vec<Option<crate::c11_sets::JobResult>> = results.into_iter().map(Some).collect();
     for i in order {
         let r = results[i].take().unwrap();
@@ -247,6 +276,8 @@ pub fn run(ctx: &Ctx) -> ! {
         "sets",
         json!({
             "chain": "45 blocks (3 ranges of 15), even blocks 2 transactions, odd blocks 1; mithril_common::test::builder::CardanoTransactionsBuilder",
+            "sparse_chain": "the same chain with block range [15,30[ reduced to block 20 holding the single transaction '9tx-hash-20-lone' (single-leaf sub-tree in the legacy map); 14 queries per format and beacon",
+            "jobs_on_sparse_chain": jobs.iter().filter(|j| j.sparse && j.chunk == 0).count(),
             "formats": ["legacy-tx", "v2-tx", "v2-block"],
             "beacons": {"v2": V2_BEACONS, "legacy": LEGACY_BEACONS},
             "query_pool_size": full_picks.len(),
@@ -331,7 +362,6 @@ pub fn run(ctx: &Ctx) -> ! {
     rep.assume("honest answers are built with the steps of MithrilProverService::compute_proof / LegacyMithrilProverService::compute_transactions_proofs (MKMap of block-range roots from the real BlockRangeRootRetriever default method, ranges of the queried items replaced by their MKTree, MKMap::compute_proof) because mithril-aggregator is not linked; block-range roots are those block_ranges_importer.rs stores (complete ranges only)");
     rep.assume("signed messages are produced by the real CardanoBlocksTransactionsSignableBuilder / CardanoTransactionsSignableBuilder / CardanoStakeDistributionSignableBuilder over an in-memory store; the certificate's multi-signature is not checked here (C01/C03)");
     rep.assume("the certified sets contain chain hashes without '/' (see leaf_identifier_probe); pool identifiers are arbitrary strings, as the StakeDistribution type allows");
-    rep.assume("certified Cardano pool identifiers are bech32 strings ('pool1…'): two distributions with the same signed root that differ by digits moved between one entry's stake and the NEXT entry's identifier exist only when a certified identifier begins with a decimal digit; they are counted (cardano_stake_distribution.*adjacent_entries*, observation_csd_*) but not reported as violations; the underlying cause (MKTree hashes the plain concatenation of variable-length raw leaves) is the one reported under C11/item-leaf-and-neighbour-node-concatenation");
     rep.assume("a Mithril stake distribution's epoch and protocol_parameters fields are not part of 'the mapping from pools to stakes'; their not being bound by the recomputed message is counted as an observation");
     rep.finish(ctx)
 }
